@@ -633,6 +633,8 @@ def gen_plan(seed: int, cls: str) -> dict:
 
 
 EQUAL_FAMILIES = [[0, False, 0.0, -0.0], [1, True, 1.0], [2, 2.0], ['1', 1, 1.0], ['', 0, None, []], ['a', 'a ', ' a'],
+                  [-1, -2, -1.0], [float('nan'), float('nan'), 'nan', None], [float('inf'), 1e308 * 10, 'inf'], [2**53, 2**53 + 1, 2.0**53],
+                  ['1.0', '1.00', 1.0], ['1/2', 0.5, '0.5', '2/4'],
                   [[1], [True], [1.0], (1,)], [{'x': 1}, {'x': True}, {'x': 1.0}], [b'a', 'a', bytearray(b'a')]]
 
 
